@@ -51,7 +51,7 @@ fn kf(pos: f32, a: Option<f32>, k: Option<i32>, d: Option<f64>, e: Option<u8>) -
     Kf { pos, a, k, d, easing: e }
 }
 
-/// 19 shapes; `variant` 0 uses Linear/custom polynomial easings, 1 uses built-in Bezier easings
+/// 21 shapes; `variant` 0 uses Linear/custom polynomial easings, 1 uses built-in Bezier easings
 /// (Ease / InOutCubic / OutBack) in the same places.
 pub fn pool(variant: u8) -> Vec<(&'static str, Vec<TlSpec>)> {
     if variant == 2 {
@@ -114,6 +114,10 @@ pub fn pool(variant: u8) -> Vec<(&'static str, Vec<TlSpec>)> {
                 one(vec![kf(0.0, None, Some(0), None, None), kf(1.0, None, Some(400), None, None)], e(1), t(2.0, 0.0, Rep::None, false)),
             ],
         ),
+        // a property keyed only in the 0% keyframe (its single frame is both the start frame and the last frame)
+        ("k-only-at-0%", vec![one(vec![kf(0.0, Some(-10.0), Some(77), Some(4.5), None), kf(1.0, Some(50.0), None, None, None)], e(1), t(1.0, 0.0, Rep::None, false))]),
+        // a very slow eased timeline: one 2^-9 s step moves the position by less than f32::EPSILON
+        ("slow-eased-32768s", vec![one(vec![kf(0.0, Some(0.0), Some(0), None, None), kf(1.0, Some(1000.0), Some(1_000_000), None, None)], e(1), t(32768.0, 0.0, Rep::None, false))]),
         // timelines without any keyframe still have a duration: the state counts as animated until it is over
         ("keyframe-less-2s", vec![one(vec![], e(0), t(2.0, 0.0, Rep::None, false))]),
         (
@@ -800,6 +804,62 @@ fn check_selfconsistency(cfg: &Config, init: S4, h: &[Op], rank: u64, acc: &mut 
     }
 }
 
+/// C05 companion: an animator built WITHOUT `from_values` must behave exactly like one built with
+/// `from_values(Default::default())` (the documented meaning of omitting it): all histories up to depth 4 on
+/// every pool shape as the initial state's timeline, every observation bit-identical.
+fn c05_omitted_from_values(acc: &mut Acc) {
+    let np = pool(0).len() - 1;
+    let ops = [Op::Adv(0.0), Op::Adv(0.25), Op::Adv(1.0), Op::Set(S4::X), Op::Set(S4::Y), Op::Set(S4::U1)];
+    let r = par_fold(
+        np * 2,
+        Acc::default,
+        |i, acc| {
+            let (xi, variant) = (i / 2, (i % 2) as u8);
+            let cfg = Config::new(xi, (xi + 1) % np, variant);
+            acc.configs += 1;
+            let build = |with: bool| {
+                let b = StateAnimatorBuilder::<S4, PTimeline>::new().from_state(S4::X);
+                let b = if with { b.from_values(P::default()) } else { b };
+                b.on(S4::X, cfg.merged[0].clone()).on(S4::Y, cfg.merged[1].clone()).build()
+            };
+            let mut code = vec![0usize; 4];
+            'outer: loop {
+                let (mut a, mut b) = (build(false), build(true));
+                acc.histories += 1;
+                for (step, &oi) in code.iter().enumerate() {
+                    apply(&mut a, &ops[oi]);
+                    apply(&mut b, &ops[oi]);
+                    acc.ops += 2;
+                    acc.checks += 1;
+                    let (oa, ob) = (observe(&a), observe(&b));
+                    if oa.values.bits() != ob.values.bits() || oa.state != ob.state || oa.ended != ob.ended || oa.time != ob.time {
+                        let h: Vec<Op> = code[..=step].iter().map(|&o| ops[o]).collect();
+                        acc.sink.add("values:omitted-from_values-differs-from-default-values", (6u64 << 56) | (i as u64) << 32 | step as u64, || {
+                            (format!("built without from_values: {:?}; built with from_values(Default): {:?} | X = {} variant {variant} | history: {}", oa, ob, cfg.names[0], hname(&h)), json!({"config": cfg.to_json(), "history": h.iter().map(|o| o.to_json()).collect::<Vec<_>>()}))
+                        });
+                        break;
+                    }
+                }
+                // next code
+                let mut p = 3;
+                loop {
+                    code[p] += 1;
+                    if code[p] < ops.len() {
+                        break;
+                    }
+                    code[p] = 0;
+                    if p == 0 {
+                        break 'outer;
+                    }
+                    p -= 1;
+                }
+            }
+        },
+        merge,
+    );
+    merge(acc, r);
+}
+
 /// Shapes with timings that are NOT exactly representable and a delay (variant 2 of `pool`): used by the C04
 /// companion only, whose clause (set_state never changes current_values) needs no reference model.
 fn nondyadic_pool() -> Vec<(&'static str, Vec<TlSpec>)> {
@@ -875,6 +935,52 @@ fn nondyadic_companion(prop: Prop, thorough: bool, acc: &mut Acc) {
         merge,
     );
     merge(acc, r);
+}
+
+/// C07 companion: a long time already spent in the state, then many small steps (the clock must keep counting
+/// them exactly - an accumulator of lower precision absorbs or inflates them): advance(L), then steps of s until one
+/// second past the end; after every step the clock is the exact sum of the steps and is_ended is true exactly when
+/// that sum (as f32 seconds) has reached the reported duration, then sticky.
+fn c07_long_run(acc: &mut Acc) {
+    for (ci, &(long, extra, step)) in [(262_144.0f32, 6.0f32, 1.0f32 / 128.0), (16_384.0, 10.0, 0.001), (1_048_576.0, 2.0, 1.0 / 64.0), (32_768.0, 1.0, 1.0 / 512.0)].iter().enumerate() {
+        let spec = TlSpec {
+            kfs: vec![Kf { pos: 0.0, a: Some(0.0), k: Some(0), d: None, easing: None }, Kf { pos: 1.0, a: Some(1000.0), k: Some(7), d: None, easing: None }],
+            default_easing: 0,
+            timing: Timing::new(long + extra, 0.0, Rep::None, false),
+        };
+        let merged = MergedTimeline::of([spec.build()]);
+        let reported = merged.duration();
+        let mut a: Anim = StateAnimatorBuilder::<S4, PTimeline>::new().from_state(S4::X).from_values(initial_values()).on(S4::X, merged).build();
+        a.advance(long);
+        let mut clock = Duration::from_secs_f32(long);
+        let mut was_ended = false;
+        acc.histories += 1;
+        let n = ((extra + 1.0) / step) as u32 + 2;
+        for i in 0..n {
+            a.advance(step);
+            clock += Duration::from_secs_f32(step);
+            acc.ops += 1;
+            acc.checks += 1;
+            let rank = (6u64 << 56) | (ci as u64) << 32 | i as u64;
+            let mk = || json!({"timeline": spec.to_json(), "first_advance": long, "then_steps_of": step, "step_index": i});
+            if a.verif_time_in_state() != clock {
+                acc.sink.add("long-run:clock-is-not-the-sum-of-the-steps", rank, || (format!("after advance({long}) and {} steps of {step} s the time in state is {:?}, the exact sum is {:?}", i + 1, a.verif_time_in_state(), clock), mk()));
+                break;
+            }
+            let want = clock.as_secs_f32() >= reported;
+            if want != was_ended {
+                acc.nontrivial += 1;
+            }
+            if a.is_ended() != want {
+                acc.sink.add(if want { "long-run:is_ended-not-reported" } else { "long-run:is_ended-reported-early" }, rank, || (format!("after advance({long}) and {} steps of {step} s: is_ended() = {}, time in state {:?}, duration() {reported}", i + 1, a.is_ended(), clock), mk()));
+                break;
+            }
+            was_ended = a.is_ended();
+        }
+        if !was_ended {
+            acc.sink.add("long-run:never-ended", (6u64 << 56) | (ci as u64) << 32, || (format!("advance({long}) and {n} steps of {step} s: never ended (duration {reported})"), json!({"timeline": spec.to_json()})));
+        }
+    }
 }
 
 /// C07 companion with non-dyadic timings and steps: the statement as worded against the *reported*
@@ -1207,12 +1313,16 @@ pub fn run(run: Run, prop: Prop) -> ! {
     let mut acc = acc;
     if prop == Prop::C07 {
         c07_nondyadic(&mut acc);
+        c07_long_run(&mut acc);
     }
     if prop == Prop::C06 {
         c06_tiny_steps(&mut acc);
     }
     if prop == Prop::C04 || prop == Prop::C05 {
         nondyadic_companion(prop, thorough, &mut acc);
+    }
+    if prop == Prop::C05 {
+        c05_omitted_from_values(&mut acc);
     }
     let id = format!("{prop:?}");
     let mut cov = Map::new();
@@ -1221,7 +1331,7 @@ pub fn run(run: Run, prop: Prop) -> ! {
     cov.insert("traces_validated_against_impl".into(), json!(acc.histories));
     cov.insert("evaluations".into(), json!(acc.checks));
     cov.insert("distinct_nontrivial".into(), json!(acc.nontrivial));
-    cov.insert("rule".into(), json!(format!("{} animator configurations (X and Y timelines from a pool of 19 shapes: finite, to-only, mid-keyframe-only, delayed, Times 1, reversing, infinite, infinite-reversing-delayed, merged disjoint finite+infinite, merged overlapping, partial, empty merged list, infinite with delay = cycle, delayed Times 2, merged endless + delayed Times 1 reversing with one cycle length, merged short Times 2 + long non-repeating, keyframe-less 2 s, merged finite + longer keyframe-less, negative delay (not in C04 runs); two un-animated states (in every 4th configuration - thorough: an extra copy of every configuration - U2 is a third animated state, so A -> B -> C -> A histories occur); Linear/polynomial or built-in Bezier easings; non-default initial values; initial state X or U1) x ALL histories of length 1..={} over the alphabet [{}] (a state is the history: the real animator is rebuilt and replayed; clauses are evaluated on the last operation of each history, so every operation of every history is checked once) + deviation-bounded pass: default advance(1/4), all histories of length <= {} with <= {} deviations + de-duplicating breadth-first pass keyed on the complete mutable state (counts under bfs_pass; a capped level is reported, everything below the cap depth is complete). {}", cfgs.len(), depth, ops.iter().map(|o| o.name()).collect::<Vec<_>>().join(", "), dev_len, dev_k, match prop {
+    cov.insert("rule".into(), json!(format!("{} animator configurations (X and Y timelines from a pool of 21 shapes: finite, to-only, mid-keyframe-only, delayed, Times 1, reversing, infinite, infinite-reversing-delayed, merged disjoint finite+infinite, merged overlapping, partial, empty merged list, infinite with delay = cycle, delayed Times 2, merged endless + delayed Times 1 reversing with one cycle length, merged short Times 2 + long non-repeating, a property keyed only at 0%, a 32768 s eased timeline, keyframe-less 2 s, merged finite + longer keyframe-less, negative delay (not in C04 runs); two un-animated states (in every 4th configuration - thorough: an extra copy of every configuration - U2 is a third animated state, so A -> B -> C -> A histories occur); Linear/polynomial or built-in Bezier easings; non-default initial values; initial state X or U1) x ALL histories of length 1..={} over the alphabet [{}] (a state is the history: the real animator is rebuilt and replayed; clauses are evaluated on the last operation of each history, so every operation of every history is checked once) + deviation-bounded pass: default advance(1/4), all histories of length <= {} with <= {} deviations + de-duplicating breadth-first pass keyed on the complete mutable state (counts under bfs_pass; a capped level is reported, everything below the cap depth is complete). {}", cfgs.len(), depth, ops.iter().map(|o| o.name()).collect::<Vec<_>>().join(", "), dev_len, dev_k, match prop {
         Prop::C04 => "Oracle: current_values bit-identical before/after every set_state; same-state set_state leaves time, pause record and is_ended unchanged. non-trivial = set_state calls that change the state",
         Prop::C05 => "Oracle: RefAnimator stepped alongside (current_state, time in state via hook, live pause record via hook, values = state's merged timeline started from the values observed at entry, evaluated at the time in state; un-animated fields bit-identical). non-trivial = operations after which the current state animates at least one property",
         Prop::C06 => "Companion: every sequence of 2..5 non-representable steps (0.1,0.2,0.3,1/3,0.7) vs one advance of their f32 sum, values within float rounding (1e-3 of the value scale; sequences ending within 2e-5 s of a reference discontinuity skipped). Oracle: the history and its normal form (consecutive advances merged, zero advances and same-state changes dropped) end with bit-identical values, state and is_ended; advance(0) is a no-op. non-trivial = histories that differ from their normal form",
